@@ -97,8 +97,9 @@ def match_known(known, prop, res):
 # minimisation
 # ---------------------------------------------------------------------------------------------
 class Minimiser:
-    def __init__(self, bdir, build, plan, oracle, budget_runs=300, budget_s=90, crash_func=None):
+    def __init__(self, bdir, build, plan, oracle, budget_runs=300, budget_s=90, crash_func=None, avoid=None):
         self.bdir, self.build, self.oracle = bdir, build, oracle
+        self.avoid = avoid                # (known, pid): a shrunk plan must not turn into an instance of an open known finding
         self.crash_func = crash_func      # crashes: stay with the function that faulted (one violation class, not "any crash")
         self.best = plan; self.runs = 0; self.t0 = time.time(); self.budget_runs, self.budget_s = budget_runs, budget_s
         self.tmp = tempfile.mkdtemp(prefix='vmin-', dir=os.path.join(VERIF, 'build'))
@@ -110,6 +111,7 @@ class Minimiser:
         try: code, res = simrun(self.bdir, self.build, ['--replay', p], timeout=60)
         except subprocess.TimeoutExpired: return False
         if not (res.get('status') == 'violation' and res.get('oracle') == self.oracle): return False
+        if self.avoid and match_known(self.avoid[0], self.avoid[1], dict(res, build=self.build)) is not None: return False
         if self.crash_func and self.oracle == 'crash':
             resolve_pc(self.bdir, self.build, res)
             if res.get('crash_func') != self.crash_func: return False
@@ -247,10 +249,13 @@ def check_property(pid, tier, base_seed, out=sys.stdout, write_evidence=True, ex
     known_printed = set()
     classes = {}
     for v in viol: resolve_pc(bdir, v[1], v[3])
-    for v in viol: classes.setdefault((v[3].get('oracle'), v[1], v[3].get('crash_func', '')), []).append(v)
+    # (runs that match an open known finding form classes of their own: a finding never hides a run of the same oracle that does not match it)
+    def _kid(v):
+        k = match_known(known, pid, v[3]); return k['id'] if k else ''
+    for v in viol: classes.setdefault((v[3].get('oracle'), v[1], v[3].get('crash_func', ''), _kid(v)), []).append(v)
     replay_dir = replay_dir or os.path.join(VERIF, 'replays')
     os.makedirs(replay_dir, exist_ok=True)
-    for (oracle, b, _cf), vs in sorted(classes.items(), key=lambda kv: str(kv[0])):
+    for (oracle, b, _cf, _kn), vs in sorted(classes.items(), key=lambda kv: str(kv[0])):
         fam, b, sd, r = vs[0]
         kn = match_known(known, pid, r)
         if r.get('_job') in replays: plan = dump_plan_args(bdir, b, replays[r['_job']])
@@ -274,7 +279,7 @@ def check_property(pid, tier, base_seed, out=sys.stdout, write_evidence=True, ex
                 out.write('KNOWN-FINDING: property=%s %s [%s; e.g. family=%s build=%s seed=%d]\n' % (pid, kn.get('title', kn['what'][:200]), kn['id'], fam, b, sd))
             reported.append({'oracle': oracle, 'build': b, 'known': kn['id'], 'runs': len(vs)})
             continue
-        mn = Minimiser(bdir, b, plan, oracle, budget_runs=(6 if oracle == 'hang' else spec.get('min_runs', 450 if len(plan.get('progs', [])) > 1 else 250)), budget_s=spec.get('min_s', 90 if len(plan.get('progs', [])) > 1 else 60), crash_func=r.get('crash_func'))
+        mn = Minimiser(bdir, b, plan, oracle, budget_runs=(6 if oracle == 'hang' else spec.get('min_runs', 450 if len(plan.get('progs', [])) > 1 else 250)), budget_s=spec.get('min_s', 90 if len(plan.get('progs', [])) > 1 else 60), crash_func=r.get('crash_func'), avoid=(known, pid))
         small = mn.run()
         rp = os.path.join(replay_dir, '%s-%s-%s-%d.json' % (pid, oracle, b, sd))
         json.dump({'property': pid, 'family': fam, 'build': b, 'seed': sd, 'plan': small}, open(rp, 'w'), indent=0)
